@@ -64,13 +64,36 @@ fn parent_prefix() -> impl Strategy<Value = (Vec<i64>, Vec<i64>, Vec<RSlot>)> {
 }
 
 fn children_case() -> impl Strategy<Value = ExecCase> {
-    (parent_prefix(), programs::compute_block(programs::StructCfg::default()), proptest::collection::vec((100i64..999).prop_map(PUSH), 0..3), any::<bool>())
-        .prop_map(|((stack, memory, repeat), block, tail, use_repc)| {
+    (
+        parent_prefix(),
+        programs::compute_block(programs::StructCfg::default()),
+        proptest::collection::vec((100i64..999).prop_map(PUSH), 0..3),
+        any::<bool>(),
+        // a second Compute in the same execution, after the parent changed some of its memory
+        proptest::option::weighted(0.3, (programs::compute_block(programs::StructCfg::default()), proptest::collection::vec((0i64..48, 100i64..999), 0..4))),
+    )
+        .prop_map(|((stack, memory, repeat), block, tail, use_repc, second)| {
             let mut prog = block;
             if use_repc && !repeat.is_empty() {
-                // children read the inherited repeat counter
-                prog.insert(2, REPC);
-                prog.insert(3, POP);
+                // children read the inherited repeat counter (kept in their memory) at the start and at the end of the
+                // body: a child's view of the parent's loop does not depend on what its siblings did to theirs
+                let read = [REPC, PUSH(1), ALOC, STO];
+                if let Some(end) = prog.iter().rposition(|o| *o == COME) {
+                    for (k, o) in read.iter().enumerate() {
+                        prog.insert(end + k, *o);
+                    }
+                }
+                for (k, o) in read.iter().enumerate() {
+                    prog.insert(2 + k, *o);
+                }
+            }
+            if let Some((block2, stores)) = second {
+                if memory.len() >= 48 {
+                    for (cell, v) in stores {
+                        prog.extend([PUSH(v), PUSH(cell), STO]);
+                    }
+                }
+                prog.extend(block2);
             }
             prog.extend(tail);
             let mut c = program_case(prog);
